@@ -2,10 +2,10 @@
 from harness import qcommon
 from vlib.runner import CheckSpec, Cube
 from vlib.stubs import qsim
-from vlib.stubs.qsim import ADD, DISCONNECT, FINISH, KILL, PULL, RUN, TICK
+from vlib.stubs.qsim import ADD, DISCONNECT, FINISH, KILL, PULL, READD, RUN, TICK, WATCHDOG
 
 PROPS = ("C16",)
-FULL = (ADD, PULL, RUN, FINISH, KILL, TICK, DISCONNECT)
+FULL = (ADD, PULL, RUN, FINISH, KILL, TICK, DISCONNECT, READD)
 HANDOFF = (ADD, PULL, RUN, DISCONNECT)
 
 
